@@ -54,6 +54,10 @@ def _make_instance(spec: dict) -> Any:
         return lib.KwBlock(D, seed)
     if cls == "LateBlock":
         return lib.LateBlock(D, seed)
+    if cls == "Passthrough":
+        return lib.Passthrough(D, seed)
+    if cls == "TMean":
+        return lib.TMean(D, seed)
     if cls == "UView":
         return lib.UView(seed, mid=float(spec.get("mid", 0.0)))
     if cls == "NamedIdentity":
@@ -463,7 +467,7 @@ def run(plan: dict) -> dict:
 # coordinator: history generator
 # ---------------------------------------------------------------------------
 
-CLASSES = ["Block", "UBlock", "EqxBlock", "PlainScale", "KwBlock", "Outer", "Inner", "RecScale", "BaseAffine", "DerivedAffine", "NamedIdentity", "UView"]
+CLASSES = ["Block", "UBlock", "EqxBlock", "PlainScale", "KwBlock", "Outer", "Inner", "RecScale", "BaseAffine", "DerivedAffine", "NamedIdentity", "UView", "Passthrough", "TMean"]
 
 
 def gen_history(seed: int, run: int, n_ops: int) -> list[dict]:
@@ -534,7 +538,38 @@ def gen_history(seed: int, run: int, n_ops: int) -> list[dict]:
             ops.append({"op": "decorate", "target": "LateBlock", "unique": r.random() < 0.3})
         elif u < 0.40:
             ops.append({"op": "decorate", "target": r.choice(["Block", "EqxBlock", "PlainScale"]), "unique": True})
-        elif u < 0.47 and live:
+        elif u < 0.43 and live and len(live) < 8:
+            # scenario: two instances of one class that differ in exactly ONE respect (another seed, or the
+            # class's own distinguishing detail: activation, flag, slope, depth, one element in the middle of a
+            # large parameter), exported together - they must not share a body
+            a = r.choice(sorted(live))
+            b = new_inst(like=a)
+            spec = dict(live[a])
+            cls_ = spec["cls"]
+            if cls_ == "Block":
+                spec["act"] = r.choice([x_ for x_ in ("gelu", "relu", "tanh") if x_ != spec.get("act", "gelu")])
+            elif cls_ == "UBlock":
+                spec["flip"] = not spec.get("flip", False)
+            elif cls_ == "EqxBlock":
+                spec["slope"] = r.choice([x_ for x_ in (0.1, 0.2, 0.5) if x_ != spec.get("slope", 0.1)])
+            elif cls_ == "RecScale":
+                spec["depth"] = (int(spec.get("depth", 1)) + 1) % 3
+            elif cls_ == "UView":
+                spec["mid"] = r.choice([x_ for x_ in (0.0, 0.5, 1.0, 2.0) if x_ != spec.get("mid", 0.0)])
+            else:
+                spec["seed"] = spec["seed"] + r.choice([1, 2, 3])
+            live[b] = spec
+            ops[-1] = {"op": "instantiate", "id": b, "spec": spec}
+            sa = {"target": cls_, "inst": a}
+            sb = {"target": cls_, "inst": b}
+            if cls_ == "NamedIdentity":
+                sa = {"target": "op_named", "which": "inst", "inst": a, "sandwich": False}
+                sb = {"target": "op_named", "which": "inst", "inst": b, "sandwich": False}
+            if cls_ == "KwBlock":
+                sa["kw"] = {"scale": 2.0}
+                sb["kw"] = {"scale": 2.0}
+            ops.append({"op": "convert", "program": {"sites": [sa, sb] if r.random() < 0.5 else [sb, sa], "shape": [2, D], "opset": 23}})
+        elif u < 0.49 and live:
             # scenario: export a pair, update one member in place, export the pair again
             cands = [k for k, v in live.items() if v["cls"] in ("Block", "UBlock", "KwBlock", "PlainScale")]
             if cands and len(live) < 8:
